@@ -20,7 +20,7 @@ CHECKS = {
         engine="E0-enum", category="exploration", design_ref="§3 C03",
         technique="exhaustive enumeration of byte strings (all strings over a 12-byte alphabet up to length 5-7 with every first byte, every prefix / single-position substitution of a corpus of valid encodings) through the real decoders; plus every 0-2 byte (thorough: 0-3 byte) payload sealed into a real packet of each type, decrypted by the real code and run through the real per-packet frame loop",
         text="PacketReader (dcid len 0/8/20), FrameReader (4 packet types), transport-parameter parsers and nom sub-parsers are run on ~14 M (thorough ~530 M) systematically enumerated inputs; no panic, progress on every Ok item, no out-of-input lengths, prescribed error kinds, malformed datagrams dropped. Part `payload`: 66 471 payloads x 4 packet types (thorough 68 M) through CipherPacket::decrypt_* and qconnection::space::read_plain_packet: an empty packet is a PROTOCOL_VIOLATION, otherwise the connection error raised and the frames dispatched equal what FrameReader yields on the same bytes.",
-        note="Exhaustive over the stated input families, not over all byte strings; in-process (an abort would be a machinery failure)."),
+        note="Exhaustive over the stated input families, not over all byte strings; in-process: a panic is caught per input, an abort inside a decoder (allocation failure) is turned into a violation naming the input by a SIGABRT handler, a stack overflow would still be a machinery failure."),
     "C04": dict(
         engine="E0-enum", category="exploration", design_ref="§3 C04",
         technique="exhaustive enumeration of boundary-value products of every numeric frame field after short legitimate histories, delivered through the wire (real writer + real FrameReader) to the real handlers; cost measured by a counting allocator and watchdogged child processes (checked and prod profiles)",
